@@ -146,12 +146,15 @@ def cache_decorator(function):
         # value not in cache so execute the function
         value = function(*args, **kwargs)
         # store the value
-        if (
-            self._cache.force_immutable
-            and hasattr(value, "flags")
-            and len(value.shape) > 0
-        ):
-            value.flags.writeable = False
+        if self._cache.force_immutable:
+            if hasattr(value, "flags") and len(value.shape) > 0:
+                value.flags.writeable = False
+            elif isinstance(value, (list, tuple)):
+                # a sequence of arrays, like `facets`: the arrays
+                # are handed to every caller just like a single one
+                for item in value:
+                    if isinstance(item, np.ndarray) and item.ndim > 0:
+                        item.flags.writeable = False
 
         self._cache.cache[name] = value
 
